@@ -44,6 +44,13 @@ func (wrapper DelegationHooksWrapper) AfterUndelegationStarted(
 	) {
 		// if the operator is opting out, we need to use the finish epoch of the opt out.
 		unbondingCompletionEpoch = wrapper.keeper.GetOperatorOptOutFinishEpoch(ctx, operator)
+		if unbondingCompletionEpoch < 0 {
+			// the opt out is completed at the end of this very block: AfterEpochEnd has already
+			// moved it to the pending list and deleted the finish epoch, while the removal marker
+			// is cleared in EndBlock. there is nothing left to wait for. (without this check a
+			// nil store key is built from the negative epoch and the transaction panics.)
+			return nil
+		}
 		// even if the operator opts back in, the undelegated vote power does not reappear
 		// in the picture. slashable events between undelegation and opt in cannot occur
 		// because the operator is not in the validator set.
